@@ -95,6 +95,33 @@ Section MemoProofs.
       + destruct (Hn j ltac:(lia)) as [w [Hw1 Hw2]]. exists w. split; [|exact Hw2]. replace (from + N.of_nat (S j)) with (from + 1 + N.of_nat j) by lia. exact Hw1.
   Qed.
 
+  (* preloading is all or nothing: it fails exactly when some glyph it is asked to load cannot be read *)
+  Lemma load_all_none : forall k from, load_all V load k from = None <-> exists i, (i < k)%nat /\ load (from + N.of_nat i) = None.
+  Proof.
+    induction k as [|k IH]; intros from; cbn [load_all].
+    - split; [discriminate|]. intros (i & Hi & _). lia.
+    - destruct (load from) as [v|] eqn:E0.
+      + destruct (load_all V load k (from + 1)) as [r|] eqn:Er.
+        * split; [discriminate|]. intros (i & Hi & Hn). exfalso. destruct i as [|i].
+          -- rewrite N.add_0_r in Hn. congruence.
+          -- assert (Hex : exists j, (j < k)%nat /\ load (from + 1 + N.of_nat j) = None).
+             { exists i. split; [lia|]. replace (from + 1 + N.of_nat i) with (from + N.of_nat (S i)) by lia. exact Hn. }
+             apply IH in Hex. congruence.
+        * split; [|reflexivity]. intros _. apply IH in Er. destruct Er as (j & Hj & Hn). exists (S j). split; [lia|].
+          replace (from + N.of_nat (S j)) with (from + 1 + N.of_nat j) by lia. exact Hn.
+      + split; [|reflexivity]. intros _. exists 0%nat. split; [lia|]. rewrite N.add_0_r. exact E0.
+  Qed.
+  Lemma init_preload_refused_iff : init_preload V load n = None <-> n = 0 \/ exists g, g < n /\ load g = None.
+  Proof.
+    unfold init_preload. destruct (N.eqb_spec n 0) as [->|Hn]; [split; [left; reflexivity|reflexivity]|].
+    destruct (load_all V load (N.to_nat n) 0) as [l|] eqn:E.
+    - split; [discriminate|]. intros [H0|(g & Hg & Hl)]; [contradiction|]. exfalso.
+      assert (Hex : exists i, (i < N.to_nat n)%nat /\ load (0 + N.of_nat i) = None) by (exists (N.to_nat g); split; [lia|]; rewrite N.add_0_l, N2Nat.id; exact Hl).
+      apply load_all_none in Hex. congruence.
+    - split; [|reflexivity]. intros _. right. apply load_all_none in E. destruct E as (i & Hi & Hl). exists (N.of_nat i). split; [lia|].
+      rewrite N.add_0_l in Hl. exact Hl.
+  Qed.
+
   Lemma init_preload_inv c : init_preload V load n = Some c -> Inv c /\ gc_loader V c = false.
   Proof.
     unfold init_preload. destruct (N.eqb_spec n 0) as [|Hn]; [discriminate|].
